@@ -202,25 +202,25 @@ theorem searchCore_exact (hio : IO cfg s) (k : Nat) (hcover : s.next ≤ max cfg
       · rw [h]; exact hcur
       · exact h
     have hr : r = (Pmax.drain sel).reverse.filterMap fun it =>
-        (s.verts it.vid).map fun x => (⟨x.id, x.md, it.score⟩ : Hit) := by
+        (s.verts it.vid).bind fun x => if x.deleted then none else some (⟨x.id, x.md, it.score⟩ : Hit) := by
       simp only [r, searchCore, hent, hdesc, hnq, hselq, htake]
-    have alloc : ∀ v, s.isDeleted v = false → ∃ x, s.verts v = some x := by
+    have alloc : ∀ v, s.isDeleted v = false → ∃ x, s.verts v = some x ∧ x.deleted = false := by
       intro v hv
       cases hx : s.verts v with
       | none => simp [Index.isDeleted, hx] at hv
-      | some x => exact ⟨x, rfl⟩
+      | some x => simp [Index.isDeleted, hx] at hv; exact ⟨x, rfl, hv⟩
     have hmap : ∀ (L : List Item), (∀ it ∈ L, it ∈ Pmax.drain sel) →
-        L.filterMap (fun it => (s.verts it.vid).map fun x => (⟨x.id, x.md, it.score⟩ : Hit)) =
+        L.filterMap (fun it => (s.verts it.vid).bind fun x => if x.deleted then none else some (⟨x.id, x.md, it.score⟩ : Hit)) =
         L.map (fun it => (⟨s.idOf it.vid, s.mdOf it.vid, it.score⟩ : Hit)) := by
       intro L
       induction L with
       | nil => intro _; rfl
       | cons a t ih =>
         intro hm
-        obtain ⟨x, hx⟩ := alloc a.vid (hitem a (hm a List.mem_cons_self)).1
+        obtain ⟨x, hx, hxd⟩ := alloc a.vid (hitem a (hm a List.mem_cons_self)).1
         have h1 : s.idOf a.vid = x.id := by simp [Index.idOf, hx]
         have h2 : s.mdOf a.vid = x.md := by simp [Index.mdOf, hx]
-        simp only [List.filterMap_cons, hx, Option.map_some, List.map_cons, h1, h2]
+        simp only [List.filterMap_cons, hx, Option.bind_some, hxd, Bool.false_eq_true, if_false, List.map_cons, h1, h2]
         rw [ih (fun it hit => hm it (List.mem_cons_of_mem _ hit))]
     rw [hmap _ (fun it hit => List.mem_reverse.mp hit)] at hr
     refine ⟨?_, ?_, ?_⟩
